@@ -881,6 +881,26 @@ struct Mon {
       ctx.stat("zones_load_failed");
       return;
     }
+    if (ze.cls == "S-dst0" && !Z.f.times.empty()) {
+      // Which type precedes the first transition is a reader's convention for these files (class S-dst0): the oracle is
+      // told once, from lookup(min()), and then demands that every answer before the first transition - instants and
+      // civil times, whatever the table position - is consistent with that one type.
+      auto al = tz.lookup(tp_t::min());
+      size_t found = Z.f.types.size();
+      for (size_t i = 0; i < Z.f.types.size(); ++i) {
+        orc::Info ti = Z.type_info(i);
+        if (ti.off == al.offset && ti.dst == al.is_dst && ti.abbr == std::string(al.abbr ? al.abbr : "")) {
+          found = i;
+          break;
+        }
+      }
+      if (found == Z.f.types.size()) {
+        ctx.viol(P.c01 ? "C01" : "C02", "before-first-type-not-in-file:" + ze.cls, "zone=" + zid() + " lookup(min()) reports offset " + std::to_string(al.offset));
+        return;
+      }
+      Z.before_first = found;
+      ctx.stat("zones.before_first_type_calibrated");
+    }
     build_probes();
     ctx.stat("zones.far_rule_changes_probed", (long)far_changes);
     if (P.c01) {
